@@ -71,6 +71,12 @@ impl Context {
     }
 }
 
+/// A dimensionless quantity value holding exactly `x` (for feeding arbitrary bit patterns to the
+/// number formatter without going through the literal parser).
+pub fn scalar_value(x: f64) -> Value {
+    Value::Quantity(crate::quantity::Quantity::from_scalar(x))
+}
+
 /// Parse `code` with the real tokenizer + parser and render the *untyped* syntax
 /// tree as a canonical S-expression (spans dropped). Parse errors are returned as
 /// their display strings.
